@@ -128,10 +128,12 @@ CLAIMED["C09"] = dict(
          "run manifest says complete with all_valid/all_completed/error_count the conjunction/sum over the members, there is one "
          "directory per member named by identity (or index), and every member directory is consistent with the in-memory result — "
          "vars/errors/meta always, data/unmatched/printouts iff non-empty, every manifest fingerprint the hash of the file's final "
-         "content (nothing is written after fingerprinting). Tie: suite `archive` runs groups under all six methods over files with "
+         "content (nothing is written after fingerprinting); and, on the model of Python's csv module, data.csv and unmatched.csv read back "
+         "with csv.reader give exactly the lines held in memory, for any cell text without a carriage return (c09_csv_content). "
+         "Tie: suite `archive` runs groups under all six methods over files with "
          "quotes, delimiters and newlines, reads the archive back (stdlib JSON/CSV, SHA-256 recomputed) and compares it with the "
          "in-memory results and with the model's file sets and run manifest.",
-    note="JSON/CSV encodings and SHA-256 are abstract in the model; breadth-first saving is compared on the real code and through the same "
+    note="JSON encodings and SHA-256 are abstract in the model (the csv encoding is modelled, Model/Csv.lean); breadth-first saving is compared on the real code and through the same "
          "member-directory model.",
     technique="Lean 4 proof (data-in/file-system-out model of save order) + on-disk correspondence",
     design="6/C09",
